@@ -17,7 +17,6 @@ package ocifilter
 import (
 	"context"
 	"io"
-	"path"
 	"strings"
 
 	"cuelabs.dev/go/oci/ociregistry"
@@ -189,11 +188,12 @@ func (r *subRegistry) mapScopes(ctx context.Context) context.Context {
 }
 
 func (r *subRegistry) repo(name string) string {
-	if name == "" {
-		// An empty repository name isn't allowed, so keep it
-		// like that so that the underlying registry will reject the
-		// empty name.
-		return ""
-	}
-	return path.Join(r.prefix, name)
+	// Note: the name is deliberately not cleaned (as path.Join would do)
+	// because that would allow names such as "../x" or "." to refer
+	// to repositories outside the prefix. Every name, whatever
+	// its contents, maps to a name that starts with the prefix
+	// followed by a slash; invalid names (including the empty
+	// name) remain invalid and will be rejected by the underlying
+	// registry.
+	return r.prefix + "/" + name
 }
